@@ -1,5 +1,5 @@
 // auto-generated: "lalrpop 0.23.1"
-// sha3: 6dfeac9d39a9044d791c773f3ca0572483339153dace6d0868fea50b1b28a569
+// sha3: 3fd95c8cff2f16243f6e485b29a9af8176aa59105de541895fe9d8f4d4d3701e
 #[allow(unused_extern_crates)]
 extern crate lalrpop_util as __lalrpop_util;
 #[allow(unused_imports)]
@@ -641,7 +641,7 @@ fn __action1<
     (_, __0, _): (usize, &'input str, usize),
 ) -> String
 {
-    format!("{}{}", format!("{}{}", '/'.to_string(), r##"{"##.to_string()), { let r = 7; let t = (r, 1); /* /* nested , */ ; */ (t.0 / t.1).to_string() })
+    { fn f<'a>(x: &'a str) -> &'a str { x } f("q").to_string() }
 }
 
 #[allow(unused_variables)]
@@ -653,7 +653,7 @@ fn __action2<
     (_, __0, _): (usize, &'input str, usize),
 ) -> String
 {
-    '\u{7d}'.to_string()
+    r",(".to_string()
 }
 
 #[allow(unused_variables)]
@@ -665,7 +665,7 @@ fn __action3<
     (_, __0, _): (usize, &'input str, usize),
 ) -> String
 {
-    { fn f<'a>(x: &'a str) -> &'a str { x } f("q").to_string() }
+    "\n".to_string()
 }
 
 #[allow(unused_variables)]
@@ -689,7 +689,7 @@ fn __action5<
     (_, __0, _): (usize, &'input str, usize),
 ) -> String
 {
-    { let r = 7; let t = (r, 1); /* /* nested , */ ; */ (t.0 / t.1).to_string() }
+    ';'.to_string()
 }
 
 #[allow(unused_variables)]
@@ -701,7 +701,7 @@ fn __action6<
     (_, __0, _): (usize, &'input str, usize),
 ) -> String
 {
-    match ("*/] }r#\"".to_string(), format!("{}{}", '\u{7d}'.to_string(), { let r = 7; let t = (r, 1); /* /* nested , */ ; */ (t.0 / t.1).to_string() })) { (a, b) => { let mut s = a; s.push_str(&b); s } }
+    ','.to_string()
 }
 
 #[allow(unused_variables)]
@@ -713,7 +713,7 @@ fn __action7<
     (_, __0, _): (usize, &'input str, usize),
 ) -> String
 {
-    { let (x, y) = (["(/*\'".to_string(), '\n'.to_string()].concat(), r#"}\'}"z"#.to_string()); x + &y }
+    r"{'/*\}".to_string()
 }
 
 #[allow(unused_variables)]
@@ -725,8 +725,7 @@ fn __action8<
     (_, __0, _): (usize, &'input str, usize),
 ) -> String
 {
-    { /* } , ; */ let v = vec![(1, 2), (3, 4)]; // }
- v[1].0.to_string() }
+    r#"a{;/*"#.to_string()
 }
 
 #[allow(clippy::type_complexity, dead_code)]
